@@ -85,8 +85,15 @@ def build(case):
     # (finding F18, repaired: the table of theta positions covered all radii but was read with the local radial index)
     rdep = case['iota'] != 0.0 and case['sub'] % 3 == 0
 
+    r_first, r_last = float(r[0]), float(r[-1])
+
     def make_iota(i0):
-        return (lambda r=C.rp: i0 * (1.0 + 0.15 * np.asarray(r, dtype=float))) if rdep else None
+        if not rdep:
+            return None
+        if case['sub'] % 6 == 3:
+            # reversed shear: exactly the same value on the first and the last radius of the grid, other values in between
+            return lambda rr=C.rp: i0 * (1.0 + 0.15 * (np.asarray(rr, dtype=float) - r_first) * (np.asarray(rr, dtype=float) - r_last))
+        return lambda rr=C.rp: i0 * (1.0 + 0.15 * np.asarray(rr, dtype=float))
     if rdep:
         C.iota = make_iota(case['iota'])
     pg = ParallelGradient(bs, eta, lay, C, order=case['order'])
